@@ -7,7 +7,8 @@ from vlib.pcheck import PCheck
 PID = "C03"
 JS = [2, 3, 4, 7, 8, 16]
 RULE = ("Programs without choice-domain and autoinc: recursion workloads over random graphs with up to 40 nodes / 150 edges (relations "
-        "of hundreds to thousands of tuples, so parallel scans really partition) and general dlgen programs with enlarged EDBs; "
+        "of hundreds to thousands of tuples, so parallel scans really partition; 35% with a relation stamping every reached node with "
+        "recursive_iteration_cnt(), the loop counter read inside the scans) and general dlgen programs with enlarged EDBs; "
         "run at -j1 (reference) and at -jN, N drawn from {2,3,4,7,8,16}, with the guarded perturbation hook "
         "(SOUFFLE_VERIF_PERTURB=<generated seed>: seeded yields / short sleeps at every lock operation, CAS site and parallel-loop "
         "iteration) in 3 of 4 runs; interpreter in both tiers, compiled executables (one compile, several -j / seeds) in the "
@@ -22,6 +23,11 @@ def gen(ch):
     else:
         P = dlgen.generate(ch, dlgen.Feat(max_facts=40, max_groups=4))
     text, facts = dlgen.to_souffle(P)
+    if "e0" in P.rels and "e1" in P.rels and len(P.rels["e0"].types) == 2 and len(P.rels["e1"].types) == 1 and ch.bool(0.35) \
+            and all(t == dlgen.NUMBER for t in P.rels["e0"].types + P.rels["e1"].types):
+        # the loop counter of the recursive stratum, read inside (possibly parallel) scans
+        text += (".decl stamp(n:number, it:unsigned)\n.output stamp\nstamp(x, 0) :- e1(x).\n"
+                 "stamp(y, recursive_iteration_cnt()) :- stamp(x, _), e0(x, y), recursive_iteration_cnt() < %d.\n" % ch.int(3, 9))
     j = ch.choice(JS)
     env = {}
     if ch.bool(0.75):
